@@ -573,11 +573,24 @@ def c17(res, thorough):
 
 
 def c09(res, thorough):
+    from elim_pre import elim_pre
     base_cov(res, ["memory orders", "back-off timing", "allocators of container:: wrappers", "FC wait strategies other than backoff",
-                   "Treiber model: garbage-collected heap (no node reuse: what C01/C02 provide), hazard-pointer stores are not steps of the model, compare_exchange_weak never fails spuriously, item counter and statistics not modelled"],
-             partial=["elimination back-off and FCStack: no algorithm model; decided by histories on explored schedules",
+                   "Treiber model: garbage-collected heap (no node reuse: what C01/C02 provide), hazard-pointer stores are not steps of the model, compare_exchange_weak never fails spuriously, item counter and statistics not modelled",
+                   "Treiber stack WITH elimination back-off: Lean machine (Algo/Elim: push / pop / backoff, collision slots with their spin locks, per-thread operation descriptors; slot index and wait bound of every back-off round are inputs of the operation) "
+                   "proved linearizable to Spec.lifo for all schedules (an eliminated pair is linearized at the collision store, push immediately followed by pop), no late collision, conservation; tied by trace conformance (treiber_*_elim_named)",
+                   "FCStack without elimination: C09_fcstack_linearizable (generic flat-combining theorem of C10 instantiated with Spec.lifo); with elimination: fixed-batch theorems + differential tie + histories"],
+             partial=["FCStack elimination under concurrency: fixed-batch theorems only",
                       "container::TreiberStack (allocation wrapper around the intrusive stack): histories only"])
-    lean_step(res, ["CdsVerif.Props.C09", "CdsVerif.Props.C09Treiber"], thorough)
+    lean_step(res, ["CdsVerif.Props.C09", "CdsVerif.Props.C09Treiber", "CdsVerif.Props.C09Elim", "CdsVerif.Props.C10FCLin"], thorough)
+    fcbatch.fcbatch_check(res, thorough, kinds=["stack"])
+    for v in ("treiber_hp_elim_named", "treiber_dhp_elim_named"):
+        tie_A(res, "stack", "elim", [
+            {"args": ["--mode", "mixed", "--threads", "4", "--ops", "4", "--variant", v], "cases": 10000 if thorough else 1500},
+            {"args": ["--mode", "cas", "--threads", "4", "--ops", "5", "--variant", v], "cases": 10000 if thorough else 1500},
+            {"args": ["--mode", "cas", "--threads", "3", "--ops", "4", "--variant", v, "--coll", "1"], "cases": 4000 if thorough else 800},
+            {"args": ["--mode", "mixed", "--threads", "2", "--ops", "5", "--variant", v], "cases": 500},
+            {"args": ["--mode", "enum2" if thorough else "enum1", "--threads", "2", "--ops", "3", "--variant", v], "cases": 10 if thorough else 6}],
+            pre=elim_pre, label="stack:elim")
     n = 20000 if thorough else 1500
     # tie A: the Lean machine whose linearizability is proved (Algo/Treiber) must accept the real traces step by step
     for v in ("treiber_hp", "treiber_dhp"):
@@ -723,7 +736,7 @@ TABLE = {
     "C26": ("proof", c26),
     "C27": ("proof", c27),
     "C28": ("proof", c28),
-    "C09": ("translation_validation", c09),
+    "C09": ("proof", c09),
     "C18": ("translation_validation", c18),
     "C19": ("translation_validation", c19),
 }
